@@ -1,6 +1,6 @@
 (* C02 - Conditions branch on the value of the written boolean expression. *)
 From Coq Require Import List ZArith Bool.
-From Pory Require Import Lexer Ast Emitter Sem2 Tr SpecLemmas.
+From Pory Require Import Lexer Ast Parser Emitter Sem2 Tr SpecLemmas Tables TablesOK.
 Import ListNotations.
 
 (* emitter side (T3): a chain of one-test chunks built for an expression reaches the success target iff the
@@ -25,3 +25,10 @@ Theorem eval_is_boolean_value :
               ([], s, Some (bvalue St flag_set trainer_beaten cmp_var cmp_var_value e s)).
 Proof. exact eval_pure. Qed.
 Print Assumptions eval_is_boolean_value.
+
+(* the negation used for '!' is getNegatedBooleanOperator of parser/parser.go (regenerated from /repo on every run) *)
+Theorem negation_is_the_go_table :
+  (forall o, tok_of_cmpop (negate_op o) = lookup_neg go_negation (tok_of_cmpop o)) /\
+  (forall o, tok_of_bop (negate_bop o) = lookup_neg go_negation (tok_of_bop o)).
+Proof. split; [exact negation_agree_cmp|exact negation_agree_bop]. Qed.
+Print Assumptions negation_is_the_go_table.
